@@ -43,10 +43,10 @@ def run(tier):
     cs = list(range(2, 21)) + [32, 64] if not full else list(range(2, 41)) + [64, 100, 4096]
     cases, meta = [], []
 
-    def add(c, start, prog_lines, prog_hex, pre_cmds=(), tag="grid", mid_cmds=()):
+    def add(c, start, prog_lines, prog_hex, pre_cmds=(), tag="grid", mid_cmds=(), internal=False):
         lens = [len(h) // 2 for h in prog_hex]
         total_max = sum(lens) + len(lens) * 16 + 64  # a pad is always shorter than the instruction it precedes
-        cmds = ["new 0 ext %d H 0xcc" % (start + total_max + 32)] + list(pre_cmds) + ["chunk 0 %d" % c] + list(mid_cmds) + ["setoff 0 %d" % start,
+        cmds = ["new 0 int" if internal else "new 0 ext %d H 0xcc" % (start + total_max + 32)] + list(pre_cmds) + ["chunk 0 %d" % c] + list(mid_cmds) + ["setoff 0 %d" % start,
                 "asm 0 %s" % common.hx("\n".join(prog_lines)), "getoff 0", "dump 0 %d %d" % (start, start + total_max)]
         cases.append(cmds)
         meta.append((c, start, prog_lines, prog_hex, lens, tag, len(pre_cmds) + len(mid_cmds)))
@@ -79,6 +79,13 @@ def run(tier):
         if k % 4 == 3:
             mid = ["cnt 0 %d %s" % (rnd.choice([0, 1, 2, 8, 13, 64]), common.hx("\n".join(["nop", "mov rax, rbx"] + (["bogus rax"] if rnd.random() < 0.3 else []))))]
         add(c, start, [p[0] for p in prog], [p[1] for p in prog], pre, "random", mid)
+    # library-managed buffers (growing during the call) with chunk sizes around and above the mapping size, instructions placed across offset c / 2c
+    for k in range(100 if not full else 3000):
+        c = rnd.choice([6000, 6019, 6020, 6021, 8192, 12020, 12040, 65536, 100000])
+        prog = [rnd.choice(allc) for _ in range(rnd.randrange(1, 12))]
+        L0 = len(prog[0][1]) // 2
+        start = max(0, rnd.choice([1, 1, 2]) * c - rnd.randrange(0, L0 + 3))
+        add(c, start, [p[0] for p in prog], [p[1] for p in prog], [], "random", internal=(k % 4 != 3))
     # chunk sizes below 2 disable fitting: output must be the plain code
     for c in (0, 1):
         for k in range(40):
